@@ -129,8 +129,8 @@ class MonoHooks(Hooks):
             if fname not in self.files:
                 return Unk('SED.read(%r)' % (fname,))
             return _Sed(self.files.index(fname), self.n_ap)
-        if q.endswith(':load_parameter_table'):
-            return SymTable({'MODEL_NAME': symarr('tname', (T,))}, T)
+        if q.endswith(':read_table'):
+            return SymTable({'MODEL_NAME': symarr('tname', (T,))}, T)          # the parameter file as stored; load_parameter_table is interpreted
         if q.endswith('parfile:read') or q.endswith(':read') and 'parfile' in q:
             return {}
         return NotImplemented
